@@ -29,8 +29,9 @@ func Equal(a, b any) bool { //nolint: gocyclo
 		return true
 	case reflect.Bool:
 		return ra.Bool() == rb.Bool()
-	case reflect.Int, reflect.Int8, reflect.Int16, reflect.Int32, reflect.Int64:
-		return ra.Convert(int64Type).Int() == rb.Convert(int64Type).Int()
+	case reflect.Int, reflect.Int8, reflect.Int16, reflect.Int32, reflect.Int64,
+		reflect.Uint, reflect.Uint8, reflect.Uint16, reflect.Uint32, reflect.Uint64, reflect.Uintptr:
+		return compareInts(ra, rb) == 0
 	case reflect.Float32, reflect.Float64:
 		return ra.Convert(float64Type).Float() == rb.Convert(float64Type).Float()
 	case reflect.String:
@@ -41,6 +42,13 @@ func Equal(a, b any) bool { //nolint: gocyclo
 		}
 		return a == b
 	default:
+		if ra.Type() != rb.Type() {
+			return false
+		}
+		if !ra.Type().Comparable() {
+			// maps, and structs that contain them: == would panic
+			return reflect.DeepEqual(a, b)
+		}
 		return a == b
 	}
 }
@@ -55,8 +63,9 @@ func Less(a, b any) bool {
 	switch joinKind(ra.Kind(), rb.Kind()) {
 	case reflect.Bool:
 		return !ra.Bool() && rb.Bool()
-	case reflect.Int, reflect.Int8, reflect.Int16, reflect.Int32, reflect.Int64:
-		return ra.Convert(int64Type).Int() < rb.Convert(int64Type).Int()
+	case reflect.Int, reflect.Int8, reflect.Int16, reflect.Int32, reflect.Int64,
+		reflect.Uint, reflect.Uint8, reflect.Uint16, reflect.Uint32, reflect.Uint64, reflect.Uintptr:
+		return compareInts(ra, rb) < 0
 	case reflect.Float32, reflect.Float64:
 		return ra.Convert(float64Type).Float() < rb.Convert(float64Type).Float()
 	case reflect.String:
@@ -75,7 +84,8 @@ func joinKind(a, b reflect.Kind) reflect.Kind { //nolint: gocyclo
 		if b == reflect.Array || b == reflect.Slice {
 			return reflect.Slice
 		}
-	case reflect.Int, reflect.Int8, reflect.Int16, reflect.Int32, reflect.Int64:
+	case reflect.Int, reflect.Int8, reflect.Int16, reflect.Int32, reflect.Int64,
+		reflect.Uint, reflect.Uint8, reflect.Uint16, reflect.Uint32, reflect.Uint64, reflect.Uintptr:
 		if isIntKind(b) {
 			return reflect.Int64
 		}
@@ -92,10 +102,52 @@ func joinKind(a, b reflect.Kind) reflect.Kind { //nolint: gocyclo
 
 func isIntKind(k reflect.Kind) bool {
 	switch k {
-	case reflect.Int, reflect.Int8, reflect.Int16, reflect.Int32, reflect.Int64:
+	case reflect.Int, reflect.Int8, reflect.Int16, reflect.Int32, reflect.Int64,
+		reflect.Uint, reflect.Uint8, reflect.Uint16, reflect.Uint32, reflect.Uint64, reflect.Uintptr:
 		return true
 	default:
 		return false
+	}
+}
+
+func isUintKind(k reflect.Kind) bool {
+	switch k {
+	case reflect.Uint, reflect.Uint8, reflect.Uint16, reflect.Uint32, reflect.Uint64, reflect.Uintptr:
+		return true
+	default:
+		return false
+	}
+}
+
+// compareInts compares two integer values of any width and signedness by
+// numeric value; it returns -1, 0 or 1.
+func compareInts(ra, rb reflect.Value) int {
+	cmp := func(lt, eq bool) int {
+		switch {
+		case lt:
+			return -1
+		case eq:
+			return 0
+		default:
+			return 1
+		}
+	}
+	au, bu := isUintKind(ra.Kind()), isUintKind(rb.Kind())
+	switch {
+	case au && bu:
+		return cmp(ra.Uint() < rb.Uint(), ra.Uint() == rb.Uint())
+	case au:
+		if rb.Int() < 0 {
+			return 1
+		}
+		return cmp(ra.Uint() < uint64(rb.Int()), ra.Uint() == uint64(rb.Int()))
+	case bu:
+		if ra.Int() < 0 {
+			return -1
+		}
+		return cmp(uint64(ra.Int()) < rb.Uint(), uint64(ra.Int()) == rb.Uint())
+	default:
+		return cmp(ra.Int() < rb.Int(), ra.Int() == rb.Int())
 	}
 }
 
